@@ -133,6 +133,8 @@ REAL = {  # cause -> (dir of the failing op, op, model failspec (node, occurrenc
     # refused by the noise layer BEFORE it is encrypted (fix C12-oversize-refused-before-encryption): the send nonce
     # is not consumed, so the follow-ups are judged like after any other failure (no peer resynchronisation)
     "oversize": ("down", ("send", "oversize"), (S(2), 0, 1), "ValueError"),
+    # the boundary: an encoded frame of exactly 2^24 - 16 bytes (with the tag: 2^24, one more than three bytes hold)
+    "oversize_exact": ("down", ("send", "oversize_exact"), (S(2), 0, 1), "ValueError"),
     "not_transport_down": ("down", ("send", "presence"), (S(2), 0, 1), "MachineError"),
     "undecodable": ("up", ("recv", "garbage"), (U(3), 0, 1), "Exception"),
     "handler_valueerror": ("up", ("recv", "notification_unsupported"), (U(7), 0, 1), "ValueError"),
@@ -181,7 +183,7 @@ def gen_scenarios(ctx):
     # real causes
     for pos in positions:
         for cause in REAL:
-            if cause == "oversize" and pos != positions[0] and quick:
+            if cause in ("oversize", "oversize_exact") and pos != positions[0] and quick:
                 continue                          # 0.7 s each
             sc.append({"pre": pos, "cause": cause, "layer": None, "dir": REAL[cause][0], "occ": 0,
                        "op": list(REAL[cause][1]), "reconnect": cause.startswith("not_transport")})
@@ -307,7 +309,7 @@ def run_impl(ctx, scn, seed):
         if arm is not None:
             ins.armed = arm
         fn = (lambda: rig.op_send(op[1])) if op[0] == "send" else (lambda: rig.op_recv(op[1]))
-        st, r = w.run(fn, TIMEOUT if op[1] != "oversize" else 10.0)
+        st, r = w.run(fn, TIMEOUT if not op[1].startswith(("oversize", "largest")) else 20.0)
         ins.armed = None
         if st == "done":
             out = {"outcome": r["outcome"], "exc": r["exc"], "wire_frames": r["wire_frames"],
